@@ -42,6 +42,7 @@ type AEvent struct {
 	TypeCode   byte   // AUnknown: event type byte
 	Body       []byte // AUnknown / AIntVar / ARand / ARowsQuery / AGTID bodies
 	Raw        []byte // ARaw: complete event bytes
+	Bad        bool   // the event is well-formed but holds a value no decoder accepts: the stream must fail here
 
 	// filled by Layout
 	File       string
@@ -375,6 +376,9 @@ func Expect(served []*AEvent, start Position) ([]ExpTx, *ExpectError) {
 			t := tables[e.Rows.Table.ID]
 			if t == nil {
 				return out, &ExpectError{i, "rows for unannounced table id"}
+			}
+			if e.Bad {
+				return out, &ExpectError{i, "rows event with an undecodable cell"}
 			}
 			pb, pa := e.Rows.Presence()
 			ev := ExpEvent{IsRows: true, DB: t.DB, Table: t.Name, TS: e.TS}
